@@ -766,3 +766,38 @@ Proof.
   destruct (iso_dup_model h tinit [] [] tinit_inv2) as [_ Hd].
   rewrite tagree_model, Hd. fold k0. rewrite (holds_on_model h Hfr). reflexivity.
 Qed.
+
+(* ---------- C04's TCP predicate: the bind-ownership clause follows from C16's ---------- *)
+Lemma binds_own st t e acts : k_binds st t e acts = true -> own_binds st e acts = true.
+Proof.
+  unfold k_binds, own_binds. intros H. apply forallb_forall. intros a Ha. rewrite forallb_forall in H. specialize (H a Ha).
+  destruct a as [| |dcn btid k| | | | | |]; try reflexivity.
+  destruct e as [| | | | |dc etid au ocid| | |]; try exact H.
+  destruct ocid as [k'|]; [|discriminate].
+  apply andb_true_iff in H as [_ H]. destruct (ann_get k (k_ann st)) as [[c t0]|]; [|discriminate].
+  apply andb_true_iff in H as [_ H]. exact H.
+Qed.
+
+Lemma own_model : forall h s st used, MInv s -> KInv s st used -> cids_fresh used h -> own_from st (tmodel_steps s h) = true.
+Proof.
+  induction h as [|e h IH]; intros s st used M K Hfr; [reflexivity|]. cbn [tmodel_steps].
+  destruct (tstep s e) as [s' acts] eqn:Hs. cbn [own_from ts_ev ts_acts].
+  assert (Hfr1 : match ev_cid e with Some k => ~ In k used | None => True end).
+  { cbn [cids_fresh] in Hfr. destruct (ev_cid e); [apply Hfr|exact I]. }
+  assert (Hfr2 : cids_fresh (used' e used) h).
+  { cbn [cids_fresh] in Hfr. unfold used'. destruct (ev_cid e); [apply Hfr|exact Hfr]. }
+  destruct (kstep_ok s e s' acts st used M K Hfr1 Hs) as (C & M' & K').
+  unfold k_step in C. cbn [fst ts_ev ts_acts] in C.
+  repeat (apply andb_true_iff in C as [C ?]).
+  match goal with Hb : k_binds _ _ _ _ = true |- _ => rewrite (binds_own _ _ _ _ Hb) end.
+  cbn [andb]. eapply IH; eauto.
+Qed.
+
+(* THE THEOREM for C04's RFC 6062 part: for every history of TCP-relay events whose connection ids are fresh the isolation
+   predicate holds on the model's trace, and the runner accepts that trace *)
+Theorem tcp_isolation_on_model h : cids_fresh [] h -> C04TcpCheck.run (tmodel_case h) = (true, true).
+Proof.
+  intros Hfr. unfold C04TcpCheck.run, tmodel_case, iso_holds. cbn [tc_steps].
+  destruct (iso_dup_model h tinit [] [] tinit_inv2) as [H1 H2]. rewrite tagree_model, H1, H2.
+  change k_empty with k0. rewrite (own_model h tinit k0 [] minv_init kinv_init Hfr). reflexivity.
+Qed.
